@@ -44,7 +44,9 @@ def run(ck, w):
     g = w.graph
 
     # ---- 1. value nondeterminism -> written bytes -------------------------------------------------------
-    T = taint.Taint(w, set(), decoded_enums=set(), source_calls=VALUE_SOURCES, bounded_sanitize=False,
+    # results of std::time / std::env calls stay tainted here (Instant::elapsed, duration_since, ...)
+    io_clean = re.compile(taint.IO_CALLS.pattern.replace(r"|^std::env::|^std::time::", ""))
+    T = taint.Taint(w, set(), decoded_enums=set(), source_calls=VALUE_SOURCES, bounded_sanitize=False, io_calls=io_clean,
                     no_prop=re.compile(r"^tracing|monitor::Monitor::(count|error|start_task)|Task::(set_name|increment|set_total)$"))
     iters = T.solve()
     ck.stats["nondet_taint"] = {"iterations": iters, "heap_fields_tainted": sorted("%s.%s" % x for x in T.heap)}
@@ -109,6 +111,36 @@ def run(ck, w):
         ck.ok(o)
     else:
         ck.fail(o, "cv.taint", "control-failed", "the documented time stamps are not found tainted (analysis lost the flow): %s" % sorted(T.heap))
+
+    # ---- 1c. control dependence ---------------------------------------------------------------------------
+    o = ck.ob("C17.1c", "no branch on the write paths tests a value derived from the clock, randomness or the environment "
+                        "(what is written, and when it is flushed, is decided by the data alone)")
+    scope0 = g.reachable_from(ENTRIES)
+    n_sw = 0
+    bad_sw = []
+    for n in sorted(scope0):
+        b = lib.bodies.get(n)
+        if b is None or not b.file.startswith("src/") or SKIP_FILES.search(b.file) or rules.is_derive_body(b):
+            continue
+        is_cl = b.kind in ("closure", "coroutine")
+        for i in sorted(b.live):
+            t = b.blocks[i]["term"]
+            if t["tk"] != "switch":
+                continue
+            n_sw += 1
+            V, D = T._read(b, t["discr"], is_cl)
+            if taint.SRC in V:
+                bad_sw.append((b, i, t))
+    ck.floor("C17.1c.n", "branches examined on the write paths", n_sw, 200)
+    if bad_sw:
+        for b, i, t in bad_sw:
+            line = None
+            for s in reversed(b.blocks[i]["stmts"]):
+                line = s.get("line") or line
+            ck.fail(o, b.root, "branch on a nondeterministic value",
+                    "a branch in %s depends on the clock / randomness / environment (bb%d)" % (b.name, i), "%s:bb%d" % (b.file, i))
+    else:
+        ck.ok(o, "%d branches" % n_sw, instances=n_sw)
 
     # ---- 2. order nondeterminism ---------------------------------------------------------------------------
     o = ck.ob("C17.2", "every unordered iteration on the write paths is a reviewed, order-insensitive instance")
